@@ -5,9 +5,9 @@ Import ListNotations.
 Local Open Scope N_scope.
 
 (* with the empty-path guard the endpoint always produces a status (never a dropped connection) *)
-Theorem status_total has path : exists s, status 1 has path = Some s /\ (s = 200 \/ s = 400 \/ s = 404).
+Theorem status_total num has path : exists s, status 1 num has path = Some s /\ (s = 200 \/ s = 400 \/ s = 404).
 Proof.
-  unfold status. destruct (parse_tile_path 1 path) eqn:E.
+  unfold status. destruct (parse_tile_path 1 num path) eqn:E.
   - destruct (has z x y); eauto.
   - eauto.
   - eauto.
@@ -17,11 +17,11 @@ Proof.
 Qed.
 
 (* 200 exactly when the path parses to a coordinate that holds a tile (or is the metadata document) *)
-Theorem status_200_iff has path :
-  status 1 has path = Some 200 <->
-  (parse_tile_path 1 path = PMeta \/ exists z x y, parse_tile_path 1 path = PCoord z x y /\ has z x y = true).
+Theorem status_200_iff num has path :
+  status 1 num has path = Some 200 <->
+  (parse_tile_path 1 num path = PMeta \/ exists z x y, parse_tile_path 1 num path = PCoord z x y /\ has z x y = true).
 Proof.
-  unfold status. destruct (parse_tile_path 1 path) eqn:E.
+  unfold status. destruct (parse_tile_path 1 num path) eqn:E.
   - destruct (has z x y) eqn:H; split.
     + intros _. right. eauto.
     + reflexivity.
@@ -34,13 +34,13 @@ Proof.
 Qed.
 
 (* a parsed coordinate is always a valid TileCoord3 level and u32 coordinates *)
-Theorem parsed_coord_in_range v path z x y : parse_tile_path v path = PCoord z x y -> z <= 31 /\ x <= 4294967295 /\ y <= 4294967295.
+Theorem parsed_coord_in_range v num path z x y : parse_tile_path v num path = PCoord z x y -> z <= 31 /\ x <= 4294967295 /\ y <= 4294967295.
 Proof.
   unfold parse_tile_path. destruct (as_vec path) as [|p0 [|p1 [|p2 r]]]; try (destruct (v =? 0); discriminate);
     try (repeat match goal with |- context [if ?c then _ else _] => destruct c end; discriminate).
   destruct (parse_uint 255 p0) as [z0|]; [|discriminate].
   destruct (parse_uint 4294967295 p1) as [x0|] eqn:Ex; [|discriminate].
-  destruct (parse_uint 4294967295 (take_digits p2)) as [y0|] eqn:Ey; [|discriminate].
+  destruct (parse_uint 4294967295 (take_digits num p2)) as [y0|] eqn:Ey; [|discriminate].
   destruct (z0 <=? 31) eqn:Ez; [|discriminate]. intros H; inversion H; subst.
   assert (Hb : forall lim s v0, parse_uint lim s = Some v0 -> v0 <= lim).
   { intros lim s v0. unfold parse_uint. destruct (match s with 43 :: r0 => r0 | _ => s end) as [|c0 l0]; [discriminate|].
@@ -48,8 +48,40 @@ Proof.
   split; [lia|]. split; [eapply Hb; eauto | eapply Hb; eauto].
 Qed.
 
+(* the y part: whatever follows the leading numeric characters is ignored (a file extension), and
+   a leading run that contains a numeric character outside 0-9 is a bad request, not a coordinate *)
+Lemma digits_val_all_digits l : forall acc v, digits_val acc l = Some v -> forallb is_digit l = true.
+Proof.
+  induction l as [|c r IH]; intros acc v H; [reflexivity|]. cbn [digits_val forallb] in *.
+  destruct (is_digit c); [|discriminate]. cbn. eapply IH; eauto.
+Qed.
+Lemma parse_uint_ascii lim s v : parse_uint lim s = Some v -> forallb (fun c => is_digit c || (c =? 43)) s = true.
+Proof.
+  unfold parse_uint. intros H.
+  assert (G : forall t, match t with [] => None | _ => match digits_val 0 t with Some w => if w <=? lim then Some w else None | None => None end end = Some v -> forallb is_digit t = true).
+  { intros t. destruct t as [|c0 t0]; [discriminate|]. destruct (digits_val 0 (c0 :: t0)) eqn:E; [|discriminate]. intros _. eapply digits_val_all_digits; eauto. }
+  assert (W : forall t, forallb is_digit t = true -> forallb (fun c => is_digit c || (c =? 43)) t = true).
+  { induction t as [|c t IHt]; [reflexivity|]. cbn [forallb]. intros Ht. apply andb_true_iff in Ht. destruct Ht as [H1 H2]. rewrite H1, IHt by exact H2. reflexivity. }
+  destruct s as [|c r]; [discriminate|].
+  destruct c as [|p]; [apply W; apply G; exact H|].
+  do 6 (try destruct p as [p|p|]); try (apply W; apply G; exact H).
+  cbn [forallb]. change (43 =? 43) with true. rewrite orb_true_r. cbn [andb]. apply W. apply G. exact H.
+Qed.
+Theorem y_non_ascii_numeric_is_bad_request v num path p0 p1 p2 rest c :
+  as_vec path = p0 :: p1 :: p2 :: rest ->
+  In c (take_digits num p2) -> is_digit c = false -> c <> 43 ->
+  parse_tile_path v num path = PBad.
+Proof.
+  intros Hv Hin Hd Hp. unfold parse_tile_path. rewrite Hv.
+  assert (E : parse_uint 4294967295 (take_digits num p2) = None).
+  { destruct (parse_uint 4294967295 (take_digits num p2)) eqn:E; [|reflexivity].
+    apply parse_uint_ascii in E. rewrite forallb_forall in E. specialize (E c Hin). rewrite Hd in E. cbn in E.
+    apply N.eqb_eq in E. contradiction. }
+  rewrite E. destruct (parse_uint 255 p0); destruct (parse_uint 4294967295 p1); reflexivity.
+Qed.
+
 (* the pinned source drops the connection for an empty tile path *)
-Lemma empty_path_panics_v0 has : status 0 has [47] = None.
+Lemma empty_path_panics_v0 num has : status 0 num has [47] = None.
 Proof. reflexivity. Qed.
 
 (* ---------- Accept-Encoding: substring test = token membership on well-formed lists ---------- *)
